@@ -158,8 +158,11 @@ def extension(ck, rp):
         "TwoExtractors=TRUE, KeyByExtractor=FALSE (Agree violated) and shows that keying the cache by extractor repairs it.")
     if a.violated != "Agree":
         vf.log("[ext] note: as-built two-extractor cfg no longer violates Agree at model level (%s)" % a.violated)
+    if deviate and not ck.known_finding(FINDING_EXT, "second extractor's packages attributed to the last layer that rewrote the file"):
+        # repaired in /repo (the cache is keyed by extractor): a deviation is a regression of the statement of C05
+        ck.violation("two extractors on one file: a package is not attributed to the layer that introduced it: " + json.dumps(witness)[:600],
+                     {"extension": "two_extractors", "witness": witness})
     if deviate:
-        ck.known_finding(FINDING_EXT, "second extractor's packages attributed to the last layer that rewrote the file")
         vf.log("[ext] two extractors on one file: %d of %d histories deviate from the declarative attribution "
                "(%d predicted by the as-built model, %d unexplained); outside the C05 verdict" % (deviate, len(cases), predicted, unexplained))
     return len(cases)
@@ -205,7 +208,7 @@ def body(a, ck, rp):
     # 2. exhaustive replay cfgs
     plan = []   # (cfg, selector)
     if T:
-        plan = [("LayerTrace-1f-quick.cfg", None), ("LayerTrace-1f.cfg", lambda c: c["n"] == 5), ("LayerTrace-2f.cfg", None)]
+        plan = [("LayerTrace-1f-quick.cfg", None), ("LayerTrace-1f.cfg", lambda c: c["n"] == 5 and rnd.random() < 0.5), ("LayerTrace-2f.cfg", None)]
     else:
         # quick: every history of <= 4 entries with a matching config history, every history of <= 3 entries under
         # every alignment, and seeded samples of the rest
@@ -279,7 +282,8 @@ def body(a, ck, rp):
         "per file ignores / deletes (only an existing file) / writes any subset of the packages; x every listed alignment of the config "
         "history (match, missing = no history, short = first layer's entry missing, long = one non-empty entry too many). TLC checks all "
         "invariants on all of them; replayed as real images: " +
-        ("all cases of LayerTrace-1f-quick (<=4 entries, 4 alignments), all 5-entry cases of LayerTrace-1f, all of LayerTrace-2f"
+        ("all cases of LayerTrace-1f-quick (<=4 entries, 4 alignments), a seeded half of the 5-entry cases of LayerTrace-1f, all of LayerTrace-2f "
+         "(<=3 entries, 4 alignments)"
          if T else
          "all <=4-entry one-file histories with matching history, all <=3-entry ones under every alignment, all <=2-entry two-file "
          "histories, seeded 15%/25% samples of the rest") +
